@@ -233,6 +233,10 @@ impl World for WorldI {
                 _ => IOp::Resubmit { k: rng.below(64) as u16 },
             };
             ops.push(op);
+            if rng.chance(1, if focus == "C18" { 8 } else { 40 }) {
+                let valid = rng.chance(1, 2);
+                ops.push(IOp::ProbeSetMeta { tok: 2 + rng.below(2) as u8, meta: gen_meta(rng, valid) });
+            }
             if rng.chance(1, 12) {
                 ops.push(IOp::Advance { dseq: *rng.pick(&[1u32, 17, 100, 20_000, 1_100_000]) });
             }
@@ -263,7 +267,7 @@ impl World for WorldI {
             };
             ctx.trace_str(eff.kind());
             run_op(&mut ex, ctx, &eff);
-            if !matches!(op, IOp::Resubmit { .. } | IOp::Advance { .. }) {
+            if !matches!(op, IOp::Resubmit { .. } | IOp::Advance { .. } | IOp::ProbeSetMeta { .. }) {
                 ex.history.push(op.clone());
             }
             if !ctx.stopped() {
@@ -376,6 +380,7 @@ pub fn run_op(ex: &mut IExec, ctx: &mut Ctx, op: &IOp) {
         IOp::MinterMint { tok, who, to, amount } => ex.do_minter_mint(ctx, tok, *who, *to, *amount),
         IOp::TransferOwnership { to, auth, abort } => ex.do_transfer_ownership(ctx, *to, *auth, *abort),
         IOp::Advance { dseq } => crate::common::advance_ledgers(&ex.sim, ctx, *dseq),
+        IOp::ProbeSetMeta { tok, meta } => ex.do_probe_set_meta(ctx, *tok, meta),
         IOp::Resubmit { .. } => {}
     }
 }
